@@ -272,7 +272,10 @@ func appendTokensForValue(val cty.Value, toks Tokens) Tokens {
 		i := 0
 		for it := val.ElementIterator(); it.Next(); {
 			eKey, eVal := it.Element()
-			if hclsyntax.ValidIdentifier(eKey.AsString()) {
+			// The key "for" must be quoted even though it is a valid identifier,
+			// because the parser would otherwise take "{ for" as the start
+			// of a for expression.
+			if hclsyntax.ValidIdentifier(eKey.AsString()) && eKey.AsString() != "for" {
 				toks = append(toks, &Token{
 					Type:  hclsyntax.TokenIdent,
 					Bytes: []byte(eKey.AsString()),
